@@ -24,7 +24,7 @@ CHECKS = {
    note="Comma locale is synthesized offline with localedef from /verif/locale; glibc locale functions are real behind recording wrappers; ' grouping flag formats excluded."),
  "C20": dict(level="fault_enumeration", ref="5.11",
    technique="deterministic simulation with fault injection: simulated fd layer (read/write/open/close seams) with scripted per-call transfer sizes; errno injected at every call index, open failures, every allocation index; differential oracle vs in-memory serialization/parse",
-   text="Per document, API (to_fd, to_file, to_file_ext, from_fd, from_fd_ex, from_file) and transfer-size schedule: unfaulted run, then an injected errno at every read/write call index, three open() errnos, and every allocation index inside the call. Write side: bytes received equal the in-memory serialization on success and are a strict prefix on failure, failures reported with a new message, descriptors balanced (to_file closes once, to_fd never). Read side: result equals the in-memory parse with the same depth limit; errors give NULL + message; nothing leaks. Sampled over documents.",
+   text="Per document, API (to_fd, to_file, to_file_ext, from_fd, from_fd_ex, from_file) and transfer-size schedule: unfaulted run, then an injected errno at every read/write call index, three open() errnos, and every allocation index inside the call. Write side: bytes received equal the in-memory serialization on success and are a strict prefix on failure, failures reported with a new message, descriptors balanced (to_file closes once, to_fd never). Read side: result equals the in-memory parse with the same depth limit; errors give NULL + message; nothing leaks. The descriptor answers fstat/lseek as a regular file or as a pipe, may be at a non-zero offset, may be descriptor 0; file names may be long or contain printf conversions; targets may exist already. Sampled over documents.",
    note="Exhaustive in the fault position per document/schedule (byte-wise schedules: first 200 call indices); write() never returning 0 is assumed; EINTR/EAGAIN count as failures as json-c defines them."),
  "C05": dict(level="exploration", ref="5.3",
    technique="deterministic simulation: seeded API histories over a handle pool with injected allocation failures; ownership-graph reference model; destruction observed at the allocator seam and by userdata callbacks",
@@ -32,7 +32,7 @@ CHECKS = {
    note="Ownership graph re-read through the public API after every op (node identity = address while alive; ASan quarantine keeps addresses from being recycled within an op, and re-allocation is tracked); caller preconditions of §9.1 respected."),
  "C06": dict(level="exploration", ref="5.4",
    technique="deterministic simulation: seeded add/replace/delete/lookup histories with injected allocation failures over (a) the json_object API with both string hashes and a seam-supplied hash seed, (b) lh_table with tiny sizes and caller hashes; vector-of-pairs reference model",
-   text="After every op: length, lookup of all 70 pool keys, and the key/value sequence through foreach, foreachC, iterator API, json_c_visit and serialization order equal the model; deleting the current key inside foreach leaves the rest of the iteration intact; failed adds change nothing; layer L additionally checks prev-links and explicit lh_table_resize. A new hash seed (process-level, via the arc4random seam) every 400 runs, recorded in the replay file.",
+   text="After every op: length, lookup of all 70 pool keys, and the key/value sequence through foreach, foreachC, iterator API, json_c_visit and serialization order equal the model; deleting the current key inside foreach (GNU and strict-ANSI variant of the macro, the latter from a -std=c99 unit of the harness), inside the visitor and inside lh_foreach_safe leaves the rest of the iteration intact; lookups also as membership tests with a NULL value pointer; replacement through json_patch keeps the position; failed adds change nothing; layer L additionally checks prev-links and explicit lh_table_resize. A new hash seed (process-level, via the arc4random seam) every 400 runs, recorded in the replay file.",
    note="Hash seed is process-wide: replay re-installs it in a fresh process. Caller preconditions (KEY_IS_NEW only for absent keys, static strings for CONSTANT_KEY, no adds inside foreach) respected."),
  "C07": dict(level="exploration", ref="5.5",
    technique="deterministic simulation: seeded array operation histories with injected growth/shrink allocation failures vs std::vector reference model; destruction callbacks as release observer",
@@ -40,7 +40,7 @@ CHECKS = {
    note="Trusts the ~100-line vector model and the delete callbacks; finite-capacity allocator (64 MiB) turns absurd growth into clean failure; caller errors (negative shrink, wrong type) not generated."),
  "C11": dict(level="exploration", ref="5.7",
    technique="deterministic simulation: seeded set_string histories across the inline/heap threshold with injected allocation failure vs byte-vector model",
-   text="Seeded histories over three string nodes with lengths crossing the inline-storage threshold in both directions, embedded NUL and non-UTF-8 bytes; after every op bytes, length, terminator, equality with a fresh node, deep copy and serialization round trip agree with the model; a failed set returns 0 and keeps the old bytes; ASan + exact live-allocation accounting.",
+   text="Seeded histories over three string nodes with lengths crossing the inline-storage threshold in both directions, embedded NUL and non-UTF-8 bytes; after every op bytes, length, terminator, equality with a fresh node, deep copy and serialization round trip agree with the model; a failed set returns 0 and keeps the old bytes; after every mutating op the node is compared through all read accessors (coercions, type, three serializer flag sets, equality) with a node freshly created from the model bytes; sources that alias memory the node owns (its cached serialization, a slice of or a prefix of its own contents) are included; ASan + exact live-allocation accounting.",
    note="Trusts the byte-vector model, ASan and the allocator wrapper; serialization checked by round trip through json-c's own parser."),
  "C03": dict(level="exploration", ref="5.1",
    technique="deterministic simulation: seeded chunk schedules (transport cutting one byte stream into parse_ex calls) vs one-shot parse of the concatenation on a fresh parser",
